@@ -470,8 +470,10 @@ func hostBoundary(c *ctx, tier string, deadline time.Time) (int, int) {
 		{"old>new", func(k, n int) *ref.StreamSpec { return bstream(host(0), host(n+11+2*k), k) }},
 		{"new>new", func(k, n int) *ref.StreamSpec { return bstream(host(n+10+2*k), host(n+11+2*k), k) }},
 		{"v6", func(k, n int) *ref.StreamSpec { return bstream(ip6(1, byte(k)), ip6(2, byte(k)), k) }},
+		{"v6 second new pair", func(k, n int) *ref.StreamSpec { return bstream(ip6(3, byte(k)), ip6(4, byte(k)), k) }},
 	}
-	fills := []int{16382, 16383, 16384}
+	// IPv4 groups hold 16384 hosts, IPv6 groups 4096; negative numbers fill with IPv6 hosts
+	fills := []int{16382, 16383, 16384, -4095, -4096}
 	maxTail := 2
 	if tier == "thorough" {
 		maxTail = 3
@@ -506,13 +508,22 @@ func hostBoundary(c *ctx, tier string, deadline time.Time) (int, int) {
 			return
 		}
 		j := jobs[i]
-		// filler: streams between distinct hosts until the writer knows j.fill hosts
+		// filler: streams between distinct hosts until the writer knows |j.fill| hosts
 		var specs []*ref.StreamSpec
-		for h := 0; h+1 < j.fill; h += 2 {
-			specs = append(specs, bstream(host(h), host(h+1), len(specs)))
+		fillHost, n := host, j.fill
+		if n < 0 {
+			n = -n
+			fillHost = func(i int) net.IP {
+				p := make(net.IP, 16)
+				p[0], p[1], p[13], p[14], p[15] = 0x20, 0x01, byte(i>>16), byte(i>>8), byte(i)
+				return p
+			}
 		}
-		if j.fill%2 == 1 {
-			specs = append(specs, bstream(host(j.fill-1), host(0), len(specs)))
+		for h := 0; h+1 < n; h += 2 {
+			specs = append(specs, bstream(fillHost(h), fillHost(h+1), len(specs)))
+		}
+		if n%2 == 1 {
+			specs = append(specs, bstream(fillHost(n-1), fillHost(0), len(specs)))
 		}
 		names := []string{}
 		for _, t := range j.seq {
